@@ -2331,6 +2331,75 @@ func VerifCallGraphNamesakes(n int) {
 	}
 }
 
+// VerifCallGraphNarrowed: call sites whose receiver is a union of user classes narrowed by
+// `is_a?` tests (if/else, if/elsif/else, unless/else, inside a method or at top level): every
+// `v.run` is a call site of exactly one class's `run`, so --llm-nav --target=run must list each
+// branch's row under the class the branch narrows to, and nothing else.
+func VerifCallGraphNarrowed(n int) {
+	variant := verifapi.Concrete(verifapi.Int("variant", 0, 4))
+	s := verifInstallSym("a")
+	verifapi.WitnessList("Sym.a", verifKN(s.ka))
+	three := variant == 1 || variant == 2 || variant == 4
+	src := "class Ka\ndef run\nSym.a\nend\nend\nclass Kb\ndef run\n2\nend\nend\n"
+	if three {
+		src += "class Kc\ndef run\n3\nend\nend\ndef make(k)\nif k == 1\nKa.new\nelsif k == 2\nKb.new\nelse\nKc.new\nend\nend\n"
+	} else {
+		src += "def make(k)\nif k == 1\nKa.new\nelse\nKb.new\nend\nend\n"
+	}
+	rows := verifCountLines(src)
+	// expected call rows (relative to rows) per class: Ka, Kb, Kc; 0 = no call site
+	var ra, rb, rc int
+	var name string
+	switch variant {
+	case 0:
+		name = "if-else-over-two-classes-inside-method"
+		src += "def pick(k)\nv = make(k)\nif v.is_a?(Ka)\nv.run\nelse\nv.run\nend\nend\npick(1)\n"
+		ra, rb = 4, 6
+	case 1:
+		name = "if-elsif-else-over-three-classes-inside-method"
+		src += "def pick(k)\nv = make(k)\nif v.is_a?(Ka)\nv.run\nelsif v.is_a?(Kb)\nv.run\nelse\nv.run\nend\nend\npick(1)\n"
+		ra, rb, rc = 4, 6, 8
+	case 2:
+		name = "call-only-in-else-branch-after-two-tests"
+		src += "def opt(k)\nw = make(k)\nif w.is_a?(Kc)\n0\nelsif w.is_a?(Ka)\n1\nelse\nw.run\nend\nend\nopt(2)\n"
+		rb = 8
+	case 3:
+		name = "unless-else-over-two-classes-inside-method"
+		src += "def pick(k)\nv = make(k)\nunless v.is_a?(Ka)\nv.run\nelse\nv.run\nend\nend\npick(1)\n"
+		ra, rb = 6, 4
+	case 4:
+		name = "if-elsif-else-over-three-classes-at-top-level"
+		src += "v = make(1)\nif v.is_a?(Ka)\nv.run\nelsif v.is_a?(Kb)\nv.run\nelse\nv.run\nend\n"
+		ra, rb, rc = 3, 5, 7
+	}
+	verifapi.Witness("src", src)
+	verifapi.Witness("flags", "--llm-nav --target=run")
+	os.Args = []string{"ti", "./a.rb", "--llm-nav", "--target=run"}
+	flags := cmd.NewExecuteFlags()
+	flags.IsLlmNav = true
+	out := verifRunFlags(src, flags, 0)
+	verifapi.Reach("ran")
+	verifapi.Witness("engine-output", out)
+	sites := 0
+	chk := func(id string, r int, class string) {
+		if r == 0 {
+			return
+		}
+		sites++
+		line := "    - call point: ./a.rb:" + verifItoa(rows+r)
+		verifapi.Witness(id+".line", line)
+		verifapi.Classify("C24/call-site-in-narrowed-branch-not-listed/" + name + "/" + class)
+		verifapi.Assert(verifHasLine(out, line, ""), id)
+	}
+	chk("C24-w-ka", ra, "first-class")
+	chk("C24-w-kb", rb, "second-class")
+	chk("C24-w-kc", rc, "third-class")
+	verifapi.Witness("C24-w-count.count", verifItoa(sites))
+	verifapi.Witness("C24-w-count.of", "    - call point: ")
+	verifapi.Classify("C24/number-of-caller-entries-differs-from-number-of-call-sites/" + name)
+	verifapi.Assert(strings.Count(out, "    - call point: ") == sites, "C24-w-count")
+}
+
 // ---- C27: same-named classes in different namespaces ----
 
 // VerifNamespaces: a class group (Aa, Bb < Aa, optional Cc < Bb, an included module) analysed
